@@ -264,6 +264,70 @@ where
                 }
             }
         }
+        // the consumers built on `fold` / `try_fold` (count, last, for_each, fold, find, position, all, max_by_key ...) from
+        // EVERY position: a partially consumed iterator continues with exactly the remaining suffix
+        for i in 0..=n.min(6) {
+            let adv = || {
+                let mut it = mk();
+                for _ in 0..i {
+                    it.next();
+                }
+                it
+            };
+            if adv().count() != n - i {
+                return Some(format!("count@{}", i));
+            }
+            if adv().last().map(key).as_ref() != refs[i..].last() {
+                return Some(format!("last@{}", i));
+            }
+            let folded: Vec<K> = adv().fold(Vec::new(), |mut v, x| {
+                v.push(key(x));
+                v
+            });
+            if folded.len() != n - i || folded.iter().zip(refs[i..].iter()).any(|(a, b)| a != b) {
+                return Some(format!("fold@{}", i));
+            }
+            let mut seen = 0usize;
+            adv().for_each(|_| seen += 1);
+            if seen != n - i {
+                return Some(format!("for_each@{}", i));
+            }
+            let mut visited = 0usize;
+            if !adv().all(|_| {
+                visited += 1;
+                true
+            }) || visited != n - i
+            {
+                return Some(format!("all@{}", i));
+            }
+            let mut cnt = 0usize;
+            if adv().position(|_| {
+                cnt += 1;
+                false
+            })
+            .is_some()
+                || cnt != n - i
+            {
+                return Some(format!("position@{}", i));
+            }
+            let mut idx = 0usize;
+            let picked = adv().max_by_key(|_| {
+                idx += 1;
+                idx
+            });
+            if picked.map(key).as_ref() != refs[i..].last() {
+                return Some(format!("max_by_key@{}", i));
+            }
+            let mut idx2 = 0usize;
+            let reduced = adv().map(|x| {
+                idx2 += 1;
+                (idx2, x)
+            })
+            .reduce(|a, b| if b.0 > a.0 { b } else { a });
+            if reduced.map(|p| key(p.1)).as_ref() != refs[i..].last() || idx2 != n - i {
+                return Some(format!("reduce@{}", i));
+            }
+        }
         // clones taken at every position continue with the remaining suffix
         let mut it = mk();
         for k in 0..=n {
